@@ -1150,8 +1150,16 @@ class Pipeline:
                     f" in the MapSpec: `{f.output_name}` != `{f.mapspec.output_names}`."
                 )
                 raise ValueError(msg)
+        # A MapSpec that was autogenerated for an earlier set of functions is generated anew
+        # from all current consumers (a consumer added later may name further axes).
+        previous = {}
+        for f in self.functions:
+            m = f.mapspec
+            if m and m._is_generated and not m.inputs and not isinstance(f, NestedPipeFunc):
+                previous[f] = m
+                f.mapspec = None
         validate_consistent_axes(self.mapspecs(ordered=False))
-        self._autogen_mapspec_axes()
+        self._autogen_mapspec_axes(previous)
 
     @functools.cached_property
     def unique_leaf_node(self) -> PipeFunc:
@@ -1219,7 +1227,10 @@ class Pipeline:
     def all_output_names(self) -> set[str]:
         return {name for f in self.functions for name in at_least_tuple(f.output_name)}
 
-    def _autogen_mapspec_axes(self) -> set[PipeFunc]:
+    def _autogen_mapspec_axes(
+        self,
+        previous: dict[PipeFunc, MapSpec] | None = None,
+    ) -> set[PipeFunc]:
         """Generate `MapSpec`s for functions that return arrays with ``internal_shapes``."""
         root_args = self.topological_generations.root_args
         mapspecs = self.mapspecs(ordered=False)
@@ -1227,7 +1238,7 @@ class Pipeline:
         output_names = {at_least_tuple(f.output_name) for f in self.functions}
         multi_output_mapping = {n: names for names in output_names for n in names if len(names) > 1}
         replace_none_in_axes(mapspecs, non_root_inputs, multi_output_mapping)  # type: ignore[arg-type]
-        return create_missing_mapspecs(self.functions, non_root_inputs)  # type: ignore[arg-type]
+        return create_missing_mapspecs(self.functions, non_root_inputs, previous)  # type: ignore[arg-type]
 
     def add_mapspec_axis(self, *parameter: str, axis: str) -> None:
         """Add a new axis to ``parameter``'s `MapSpec`.
